@@ -83,8 +83,21 @@ def element(item):
     return e.endpoints(tuple(item['p']), tuple(item['q']))
 
 
-def build(program, render=False):
+def build(program, render=False, translate_after=None):
+    """execute the program; with translate_after=k the drawing is translated once after its first k items (result
+    discarded) and then completed on the same Schematic object - the way a drawing grows in a notebook"""
     from CircuitCalculator.SimpleCircuit import Elements as elm
+    if translate_after is not None and not render:
+        from CircuitCalculator.SimpleCircuit.DiagramTranslator import circuit_translator
+        s = elm.Schematic(unit=program.get('unit', 3), show=False)
+        for i, it in enumerate(program['items']):
+            if i == translate_after:
+                try:
+                    circuit_translator(s)
+                except Exception:   # an unfinished drawing need not be a valid circuit
+                    pass
+            s += element(it)
+        return s
     if render:
         with elm.Schematic(unit=program.get('unit', 3), show=False) as s:
             for it in program['items']:
@@ -213,6 +226,11 @@ def _map_points(program, f):
 def subdivide(program, fractions):
     """split every plain wire into two or three collinear segments"""
     items, k = [], 0
+    taken = set()
+    for it in program['items']:
+        for key in ('p', 'q', 'at'):
+            if key in it:
+                taken.add(pt(it[key]))
     for it in program['items']:
         if it['sym'] != 'line':
             items.append(it)
@@ -221,9 +239,10 @@ def subdivide(program, fractions):
         k += 1
         p, q = it['p'], it['q']
         m = [rnd(p[0] + (q[0] - p[0]) * f), rnd(p[1] + (q[1] - p[1]) * f)]
-        if pt(m) in (pt(p), pt(q)):
-            items.append(it)
+        if pt(m) in taken:
+            items.append(it)          # the split point would land on another terminal (and join two nodes): leave the wire whole
             continue
+        taken.add(pt(m))
         items.append({'sym': 'line', 'p': p, 'q': m})
         items.append({'sym': 'line', 'p': m, 'q': q})
     return {'unit': program.get('unit', 3), 'items': items}
